@@ -9,7 +9,8 @@ RULE = ("for every wire type and every backend: random byte strings (length 0..6
         "extension, u32 length prefixes replaced by 1, 2^16, 2^31, 2^32-1 at every vector position, out-of-range u16 digits; each "
         "decode runs under catch_unwind with a counting allocator: outcome class (value / error / never panic) equals the Gallina "
         "decoder's and peak heap use stays below 64*len+256KiB; check_proof on every vector-length combination, N=0 and "
-        "mismatched list lengths (with C04) returns a decision")
+        "mismatched list lengths (with C04) returns a decision"
+        " Added in session 3: verifiers deriving their generators locally over statements of different sizes in one process;")
 
 DE = ["de_e", "de_x", "de_p", "de_c", "de_pk", "de_sk", "de_schnorr", "de_cp", "de_vec_e", "de_vec_x", "de_vec_p", "de_vec_c", "de_vec_cp", "de_proof"]
 
